@@ -121,7 +121,7 @@ class ReqGen(cc.Gen1):
 
 
 class ResGen(cj.GenJ):
-    """TL1 result values: GenJ (JSON-relevant primitives, dictionary keys within the guard of C05's F1/F2) whose floats may leave
+    """TL1 result values: GenJ (JSON-relevant primitives, dictionary keys within the guard of C05's F1: valid UTF-8) whose floats may leave
     the guard of L2/L3 (`-0.0`, NaN payloads) when `wild`."""
 
     def __init__(self, sc, rng, big=False, wild=False):
@@ -192,7 +192,7 @@ class ResGenSorted(ResGen):
 
 
 class Gen2Plain(t2.Gen2):
-    """Gen2 whose string dictionary keys stay inside the guard of C05's findings F1/F2 (valid UTF-8, nothing JSON escapes)"""
+    """Gen2 whose string dictionary keys stay inside the guard of C05's finding F1 (valid UTF-8; F2 was repaired in /repo 540af2db)"""
 
     def value(self, ty, depth=0):
         v = super().value(ty, depth)
